@@ -13,14 +13,14 @@ func init() {
 		[]string{"hashmap.Map.Compute is atomic per key (C15.once/rmw)"},
 		ruleC09Clear, ruleC09Cancel, ruleC09Guard, ruleC08GetOrCreate)
 	register("C20",
-		"Decides the per-path counting facts behind exact statistics: the lookup-count table per operation with hit <=> live entry (C20.lookup), one load record per loader dispatch and eviction records only for removals that happened (C20.load / C20.evict). NOT decided: exactness of the striped adder under contention.",
-		[]string{"stats.Recorder methods only add"},
-		ruleC20Lookup, ruleC20Load, ruleEvict)
+		"Decides the per-path counting facts behind exact statistics: the lookup-count table per operation with hit <=> live entry (C20.lookup), one load record per loader dispatch and eviction records only for removals that happened (C20.load / C20.evict); the bundled recorder adds each reported figure exactly once to its own counter, nothing else writes a counter, Snapshot and the Stats arithmetic pair the fields of the same name (C20.counter / C20.stats); the striped adder returns only after exactly one successful compare-and-swap of count+delta on the stripe it read, Value sums every stripe (C20.adder). NOT decided: that concurrent Adds interleave correctly at run time beyond this CAS protocol shape.",
+		[]string{"a user-supplied stats.Recorder counts what it is told (the bundled stats.Counter is decided by C20.counter / C20.adder)"},
+		ruleC20Lookup, ruleC20Load, ruleEvict, ruleC20Counter, ruleC20Adder, ruleC20Stats)
 	register("C12",
 		"Decides the structural clauses of exact, overflow-free deadlines on every enumerated path: each stored deadline is the saturating sum of the operation's clock sample and the duration the hook returned on that path (C12.sat); hooks are selected by the pre-state - create for absent/expired, update/reload with the live old value, failure hook on failed reloads, read hook once per counted read - and an expired predecessor's value is never passed on (C12.hook, and C12.loadread for the loading reads); a replacing node inherits its predecessor's deadlines first (C12.inherit); the deadline writers are exactly the known sites (C12.sites); HasExpired/IsFresh have the same boundary in every variant (C12.bound). "+
 			"NOT decided: numeric equality deadline = now + d on concrete runs.",
-		[]string{"xmath.SaturatedAdd saturates (checked by C12.satfn)", "calculators are pure with respect to the cache"},
-		ruleC12Hooks, ruleC12Sites, ruleC12Bound, ruleC12Apply, ruleC10Finisher, ruleC12LoadReads)
+		[]string{"xmath.SaturatedAdd saturates (checked by C12.satfn)", "user-supplied calculators are pure with respect to the cache (the built-in ones are decided by C12.calc)"},
+		ruleC12Hooks, ruleC12Sites, ruleC12Bound, ruleC12Apply, ruleC10Finisher, ruleC12LoadReads, ruleC12Calc, ruleC12Clock)
 }
 
 func init() {
@@ -41,7 +41,7 @@ func init() {
 		"Decides the structural clauses of refresh on every enumerated path: a hit returns the value cached at that moment and never loads inline (C11.old); a reload is scheduled only on the not-fresh edge and only inside an executor closure (C11.trigger); Reload gets the old value, Load is used for absent keys (C11.reloadarg); without refresh configured nothing is returned or scheduled, a manual refresh returns a capacity-1 channel and sends exactly one result on every non-panicking path, automatic refreshes send nothing (C11.chan); a failed reload keeps the entry and its expiry, a not-found reload of its own record removes it, a successful own reload installs (C10.table, C12.hook failure rows); an operation that writes nothing (SetIfAbsent on a live key, a cancelled compute) leaves the reload in flight, so its result still replaces the value (C09.clear). "+
 			"NOT decided: timing around the deadline and behaviour of asynchronous executors; one genuine defect is a known finding (bulk refresh leaves records in flight when a loader panic is re-raised).",
 		[]string{"the executor runs submitted closures", "loaders are opaque user functions"},
-		ruleLoadLemma, ruleLoadOps, ruleBulkOps, ruleC11ReloadArg, ruleC10TableC10, ruleC10Inv, ruleC10Distribute, ruleC10Finisher, ruleC12Hooks, ruleC09Clear)
+		ruleLoadLemma, ruleLoadOps, ruleBulkOps, ruleC11ReloadArg, ruleC10TableC10, ruleC10Inv, ruleC10Distribute, ruleC10Finisher, ruleC12Hooks, ruleC09Clear, ruleC12Calc)
 }
 
 func init() {
